@@ -105,6 +105,8 @@ type c18Env struct {
 	table  []string
 	status map[string]int
 	uses   int
+	// the step table is only built when verbose is set (replays, and the re-run of a failing behaviour)
+	verbose bool
 }
 
 func (e *c18Env) open() error {
@@ -164,7 +166,11 @@ func (e *c18Env) recycle() bool {
 	return err == nil
 }
 
-func (e *c18Env) logf(format string, a ...any) { e.table = append(e.table, fmt.Sprintf(format, a...)) }
+func (e *c18Env) logf(format string, a ...any) {
+	if e.verbose {
+		e.table = append(e.table, fmt.Sprintf(format, a...))
+	}
+}
 
 // c18Safe runs f and returns the panic (value and the innermost Cloak / library frames), if any.
 func c18Safe(f func()) (p string) {
@@ -404,7 +410,9 @@ func (e *c18Env) check(exp map[string][]c18Cell, keyOnDiff, ctx string) (key, wh
 		}
 		return key, ctx + ": " + what
 	}
-	e.logf("  %s: expected %s | GET %s | LIST %s", ctx, c18ExpString(exp), c18StoreString(get), c18StoreString(list))
+	if e.verbose {
+		e.logf("  %s: expected %s | GET %s | LIST %s", ctx, c18ExpString(exp), c18StoreString(get), c18StoreString(list))
+	}
 	if d := c18Diff(get, exp); d != "" {
 		return keyOnDiff, ctx + ": GET: " + d
 	}
@@ -584,7 +592,9 @@ func c18Run(b *c18Behaviour, conc c18Conc, res *kit.Result, e *c18Env) (key, wha
 			}
 			body := c18Body(e.conc.uid(st.B), w, e.conc.Decor+si, nil)
 			code, resp, pan := e.do("POST", path, body)
-			e.logf("step %d POST %s body %s -> %d %q (model: ok=%v)", si, st.P, body, code, strings.TrimSpace(string(resp)), st.Ok)
+			if e.verbose {
+				e.logf("step %d POST %s body %s -> %d %q (model: ok=%v)", si, st.P, body, code, strings.TrimSpace(string(resp)), st.Ok)
+			}
 			if pan != "" {
 				return "panic:WriteUserInfo", fmt.Sprintf("step %d: POST panicked: %s", si, pan), nil
 			}
@@ -606,7 +616,9 @@ func c18Run(b *c18Behaviour, conc c18Conc, res *kit.Result, e *c18Env) (key, wha
 			ms := e.malformed()
 			for mi, m := range ms {
 				code, resp, pan := e.do(m.method, m.path, m.body)
-				e.logf("step %d malformed/%s %s %s body %q -> %d %q", si, m.kind, m.method, m.path, strings.TrimPrefix(m.body, "\x00"), code, strings.TrimSpace(string(resp)))
+				if e.verbose {
+					e.logf("step %d malformed/%s %s %s body %q -> %d %q", si, m.kind, m.method, m.path, strings.TrimPrefix(m.body, "\x00"), code, strings.TrimSpace(string(resp)))
+				}
 				if pan != "" {
 					return "panic:handler:" + m.kind, fmt.Sprintf("step %d: %s %s panicked: %s", si, m.method, m.path, pan), nil
 				}
@@ -620,7 +632,9 @@ func c18Run(b *c18Behaviour, conc c18Conc, res *kit.Result, e *c18Env) (key, wha
 			}
 		case "delete":
 			code, resp, pan := e.do("DELETE", c18Path(e.conc.uid(st.P)), "\x00nobody")
-			e.logf("step %d DELETE %s -> %d %q (model: ok=%v)", si, st.P, code, strings.TrimSpace(string(resp)), st.Ok)
+			if e.verbose {
+				e.logf("step %d DELETE %s -> %d %q (model: ok=%v)", si, st.P, code, strings.TrimSpace(string(resp)), st.Ok)
+			}
 			if pan != "" {
 				return "panic:DeleteUser", fmt.Sprintf("step %d: DELETE panicked: %s", si, pan), nil
 			}
@@ -777,7 +791,8 @@ func TestVerifC18Replay(t *testing.T) {
 					res.Count(c18Sig(&b), c18Nontrivial(&b))
 					res.Stat("steps", int64(len(b.Steps)))
 					if key != "" {
-						// a failing run never hands its database on; say whether a brand-new file fails too
+						// a failing run never hands its database on; the first few per key are run again on a
+						// brand-new file with the step table switched on
 						env.destroy()
 						env = nil
 						key2 := "not-tried"
@@ -787,7 +802,8 @@ func TestVerifC18Replay(t *testing.T) {
 						seenM.Unlock()
 						if first {
 							env = c18NewEnv(tmp)
-							key2, _, _ = c18Run(&b, c, res, env)
+							env.verbose = true
+							key2, _, table = c18Run(&b, c, res, env)
 							env.destroy()
 							env = nil
 						}
@@ -830,6 +846,7 @@ func c18ReplayFile(t *testing.T, path string, res *kit.Result, tmp string) {
 		t.Fatal(err)
 	}
 	env := c18NewEnv(tmp)
+	env.verbose = true
 	defer env.destroy()
 	key, what, table := c18Run(&rf.Replay.Behaviour, rf.Replay.Concretisation, res, env)
 	for _, l := range table {
